@@ -4,7 +4,7 @@ import Mathlib.Algebra.Order.Field.Rat
 /-!
 # C17 — Detectors accumulate linearly, conserve counts and reset on read-out
 
-All theorems are about `HcipyVerif.Detector.run` / `nRun`, the model of
+All theorems are about `HcipyVerif.Detector.run` / `pRun`, the model of
 `NoiselessDetector` / `NoisyDetector` (with the pending repairs D15, D29, D30, D31 applied), for
 **every** history of `integrate` / `readOut` operations, every detector shape and subsampling
 factor, over an arbitrary field `K`; the model is tied to the code by the C17 correspondence
@@ -127,31 +127,50 @@ theorem on_detector_grid (g : Geom) (ops : List (Op K)) :
   intro img h
   obtain ⟨e, he, rfl⟩ := List.mem_map.mp h
   apply sumCharges_length
-  -- every exposure consists of valid integrations
-  have key : ∀ (ops : List (Op K)) (cur : List (List K × K × K)), Valid g cur →
-      ∀ e ∈ exposures g cur ops, Valid g e := by
-    intro ops
-    induction ops with
-    | nil => intro cur _ e he; simp [exposures] at he
-    | cons op ops ih =>
-      intro cur hc e he
-      cases op with
-      | readOut =>
-        simp only [exposures, List.mem_cons] at he
-        rcases he with rfl | he
-        · exact hc
-        · exact ih [] (by intro x hx; simp at hx) e he
-      | integrate p dt w =>
-        by_cases hp : p.length = g.ninput
-        · simp only [exposures, hp, if_true] at he
-          refine ih _ ?_ e he
-          intro x hx
-          rcases List.mem_append.mp hx with h | h
-          · exact hc x h
-          · simp at h; subst h; exact hp
-        · simp only [exposures, hp, if_false] at he
-          exact ih cur hc e he
-  exact key ops [] (by intro x hx; simp at hx) e he
+  exact exposures_valid g ops [] (by intro x hx; simp at hx) e he
+
+/-! ### well-sized histories
+
+The model refuses an integration whose power array has not the size of the input grid (`Obs.refused`,
+state unchanged) — what `reshape` raising does in the code, and what `NoiselessDetector` with
+subsampling 1 does after the repair D170 (before it, that one detector kind accepted any array; the
+harness sends wrong-size arrays and compares refusal and the unchanged state).  Independently of how a
+wrong-size array is treated, the clauses hold for every history that contains none: -/
+
+/-- a well-sized history is never refused -/
+theorem wellsized_never_refused (g : Geom) (ops : List (Op K)) (h : WellSized g ops) (st : St K) :
+    Obs.refused ∉ (run g st ops).2 := by
+  induction ops generalizing st with
+  | nil => simp [run_nil]
+  | cons op ops ih =>
+    rw [run_cons]
+    intro hm
+    rcases List.mem_cons.mp hm with h1 | h1
+    · cases op with
+      | readOut => simp [step, readOut] at h1
+      | integrate p dt w => simp [step, Detector.integrate, h.head_integrate] at h1
+    · exact ih h.tail _ h1
+
+/-- **first clause, for well-sized histories**: no size test occurs in the statement — the images are
+the sums over *all* integrations between consecutive read-outs -/
+theorem readout_is_sum_wellsized (g : Geom) (ops : List (Op K)) (h : WellSized g ops) :
+    images (run g ({} : St K) ops).2 = (exposuresAll [] ops).map (sumCharges g) := by
+  rw [readout_is_sum, exposures_eq_all g ops [] h]
+
+/-- **Pixel by pixel, assembled**: the `k`-th image a history returns exists as soon as there is a
+`k`-th exposure, and its pixel `i` is `Σ_j bin(p_j)[i]·dt_j·w_j` over the integrations of that
+exposure.  (Which fine pixels `bin(p)[i]` adds up is `binND_getD`, see `readout_pixel_index`.) -/
+theorem readout_pixel (g : Geom) (ops : List (Op K)) (k : Nat) (e : List (List K × K × K))
+    (he : (exposures g [] ops)[k]? = some e) (i : Nat) (hi : i < g.npix) :
+    ∃ img, (images (run g ({} : St K) ops).2)[k]? = some img ∧
+      img.getD i 0 = (e.map fun x => (binND g.s g.dims x.1).getD i 0 * x.2.1 * x.2.2).sum := by
+  refine ⟨sumCharges g e, ?_, ?_⟩
+  · rw [readout_is_sum, List.getElem?_map, he]; rfl
+  · exact sumCharges_pixel g e
+      (exposures_valid g ops [] (by intro x hx; simp at hx) e (List.mem_of_getElem? he)) i hi
+
+example : WellSized ({ dims := [1, 2], s := 2 } : Geom)
+    ([.readOut, .integrate [1, 2, 3, 4, 5, 6, 7, 8] (1/2) 3, .readOut] : List (Op Rat)) := by decide
 
 /-- **Binning conserves counts** (`statistic='sum'`, any shape, any factor). -/
 theorem binning_conserves_counts (s : Nat) (dims : List Nat) (p : List K)
@@ -186,46 +205,56 @@ theorem readout_total (g : Geom) (l : List (List K × K × K)) (hv : Valid g l) 
   simp only [sumCharges]
   rw [this, vzero_sum]; ring
 
-/-- **A noisy detector with all noise sources off returns the same images as the noiseless
-one**, for every history and whatever the random draws are. -/
-theorem noisy_off_eq_noiseless (g : Geom) (nz : Noise K) (hn : NoiseOff g nz) (ops : List (Op K)) :
-    (nRun g nz ({} : NSt K) ops).2 = (run g ({} : St K) ops).2 := by
-  obtain ⟨hd, hf, hs, hz⟩ := hn
-  have key : ∀ (ops : List (Op K)) (nst : NSt K) (st : St K), nst.acc = st.acc →
+/-- **A noisy detector with all noise sources off returns the same observations as the noiseless
+one**, operation by operation, for every history.  The statement is about `pRun`/`pStep`, the
+definitions the driver executes for every noisy detector (`Driver/C17.lean`, kind `noisy`), started
+from `allOff g` = `NoisyDetector(grid, 0, 0, 0, False, s)`. -/
+theorem noisy_off_eq_noiseless [DecidableEq K] (g : Geom) (ops : List (Op K)) :
+    (pRun g (allOff g : PSt K) (ops.map lift)).2 = (run g ({} : St K) ops).2 := by
+  have key : ∀ (ops : List (Op K)) (pst : PSt K) (st : St K), ParamsOff g pst → pst.acc = st.acc →
       (∀ a, st.acc = some a → a.length = g.npix) →
-      (nRun g nz nst ops).2 = (run g st ops).2 := by
+      (pRun g pst (ops.map lift)).2 = (run g st ops).2 := by
     intro ops
     induction ops with
-    | nil => intro _ _ _ _; rfl
+    | nil => intro _ _ _ _ _; rfl
     | cons op ops ih =>
-      intro nst st hacc hlen
-      cases op with
-      | readOut =>
-        have hl : (st.acc.getD (vzero g.npix)).length = g.npix := by
-          cases h : st.acc with
-          | none => simp [vzero]
-          | some a => simpa using hlen a h
-        simp only [nRun, run_cons, nStep, step, nReadOut, readOut, hacc, hf, hs]
-        rw [zipWith_mul_ones _ _ hl, zipWith_add_zero_mul _ _ (by rw [hl, hz])]
-        congr 1
-        exact ih _ _ rfl (by intro a h; simp at h)
-      | integrate p dt w =>
-        by_cases hp : p.length = g.ninput
-        · simp only [nRun, run_cons, nStep, step, nIntegrate, Detector.integrate, hp, if_true, hacc, hd]
-          congr 1
-          apply ih
-          · simp
-          · intro a h
-            simp only [Option.some.injEq] at h
-            subst h
-            have hc := binCharge_length g p dt w hp
-            cases h' : st.acc with
-            | none => simpa [accAdd] using hc
-            | some b => simp [accAdd, vadd_length, hlen b h', hc]
-        · simp only [nRun, run_cons, nStep, step, nIntegrate, Detector.integrate, hp, if_false]
-          congr 1
-          exact ih _ _ hacc hlen
-  exact key ops {} {} rfl (by intro a h; simp at h)
+      intro pst st hoff hacc hlen
+      obtain ⟨h1, h2, h3⟩ := pStep_lift_off hoff hacc hlen op
+      simp only [List.map_cons, pRun_cons, run_cons, h1]
+      congr 1
+      exact ih _ _ (hoff.step _ (offOp_lift g op)) h2 h3
+  exact key ops _ _ (allOff_paramsOff g) rfl (by intro a h; simp at h)
+
+/-- **The "everything is off" flag is true whenever nothing was switched on**: from a state in
+which every noise parameter has its off value, along any history of integrations, read-outs and
+assignments of *off* values (re-assigning what is already off, in any spelling), every read-out is
+flagged `off`.  (`pReads` pairs each read-out with `PSt.off`, the flag the driver prints and the
+harness compares with its own account of the real object's parameters.) -/
+theorem off_flag_true [DecidableEq K] (g : Geom) (ops : List (POp K))
+    (hops : ∀ op ∈ ops, OffOp g op = true) (pst : PSt K) (h : ParamsOff g pst) :
+    ∀ r ∈ pReads g pst ops, r.1 = true := by
+  induction ops generalizing pst with
+  | nil => intro r hr; simp [pReads] at hr
+  | cons op ops ih =>
+    have hnext := ih (fun o ho => hops o (by simp [ho])) _ (h.step op (hops op (by simp)))
+    intro r hr
+    cases op with
+    | readOut =>
+      simp only [pReads, List.mem_cons] at hr
+      rcases hr with rfl | hr
+      · exact h.off
+      · exact hnext r hr
+    | integrate p dt w => exact hnext r (by simpa [pReads] using hr)
+    | setFlat m => exact hnext r (by simpa [pReads] using hr)
+    | setDark d => exact hnext r (by simpa [pReads] using hr)
+    | setSigma s' => exact hnext r (by simpa [pReads] using hr)
+    | setPhoton b => exact hnext r (by simpa [pReads] using hr)
+
+/-- the flag on the freshly constructed all-off detector with no setters at all -/
+theorem off_flag_true_no_setters [DecidableEq K] (g : Geom) (ops : List (Op K)) :
+    ∀ r ∈ pReads g (allOff g : PSt K) (ops.map lift), r.1 = true :=
+  off_flag_true g _ (by intro op ho; obtain ⟨o, _, rfl⟩ := List.mem_map.mp ho; exact offOp_lift g o) _
+    (allOff_paramsOff g)
 
 /-- **Parameter setters between operations**: `flat_field`, `dark_current_rate`, `read_noise`,
 `include_photon_noise` may be assigned at any point of a history.  Whenever a read-out happens
@@ -282,6 +311,24 @@ theorem setters_off_eq_noiseless [DecidableEq K] (g : Geom) :
     | setSigma s' => simp only [pReads, strip]; exact ih _ st (by simpa [pStep] using hacc) hlen
     | setPhoton b => simp only [pReads, strip]; exact ih _ st (by simpa [pStep] using hacc) hlen
 
+/-- **Clause 4 with setters, unconditional form**: on a noisy detector constructed with everything
+off, along any history in which parameters are only ever assigned their off values, *every*
+read-out equals the noiseless detector's read-out at the same point of the history without the
+setters (the flag of `setters_off_eq_noiseless` is discharged by `off_flag_true`). -/
+theorem off_setters_eq_noiseless [DecidableEq K] (g : Geom) (ops : List (POp K))
+    (hops : ∀ op ∈ ops, OffOp g op = true) :
+    (pReads g (allOff g : PSt K) ops).map Prod.snd = reads g ({} : St K) (strip ops) := by
+  have h2 := setters_off_eq_noiseless g ops (allOff g : PSt K) ({} : St K) (fun _ => rfl)
+    (by intro a h; simp at h)
+  have h1 := off_flag_true g ops hops _ (allOff_paramsOff g)
+  generalize pReads g (allOff g : PSt K) ops = l1 at h1 h2
+  generalize reads g ({} : St K) (strip ops) = l2 at h2
+  induction h2 with
+  | nil => rfl
+  | cons hab _ ih =>
+    simp only [List.map_cons]
+    rw [hab (h1 _ (by simp)), ih (fun r hr => h1 r (by simp [hr]))]
+
 /-- the seeded-defect shape, concretely: scalar 0 (unit map) → explicit map → scalar 0 again: the
 last read-out is flagged "off" and equals the noiseless image -/
 example :
@@ -313,8 +360,11 @@ example :
       [.readOut, .integrate [1, 2, 3, 4, 5, 6, 7, 8] (1/2) 3, .integrate [1, 1, 1, 1, 1, 1, 1, 1] 2 1,
        .readOut, .readOut]).2 = [[0, 0], [29, 41], [0, 0]] := by decide +kernel
 
-example : NoiseOff ({ dims := [2], s := 1 } : Geom)
-    ({ dark := 0, flat := [1, 1], sigma := 0, draws := fun _ => [5, -3] } : Noise Rat) :=
-  ⟨rfl, rfl, rfl, fun _ => rfl⟩
+/-- `allOff` is what the driver builds for `new noisy <s> <dims> 0 -`, and the flag is `true` on it -/
+example : (allOff ({ dims := [2], s := 1 } : Geom) : PSt Rat).flat = [1, 1] ∧
+    (allOff ({ dims := [2], s := 1 } : Geom) : PSt Rat).dark = [0, 0] ∧
+    pReads ({ dims := [2], s := 1 } : Geom) (allOff ({ dims := [2], s := 1 } : Geom) : PSt Rat)
+      [.setFlat [1, 1], .integrate [1, 2] 1 1, .setPhoton false, .readOut] = [(true, .image [1, 2])] := by
+  refine ⟨by decide +kernel, by decide +kernel, by decide +kernel⟩
 
 end HcipyVerif.Detector
